@@ -251,6 +251,7 @@ func (s *Store[H]) GetByHeight(ctx context.Context, height uint64) (H, error) {
 	if h, err := s.getByHeight(ctx, height); err == nil {
 		return h, nil
 	}
+	verifYield("getbyheight:miss")
 
 	// if the requested 'height' was not yet published
 	// we subscribe to it
@@ -454,13 +455,16 @@ func (s *Store[H]) flushLoop(ctx context.Context) {
 		s.ensureInit(headers)
 		// add headers to the pending and ensure they are accessible
 		s.pending.Append(headers...)
+		verifYield("flush:appended")
 		// always inform heightSub about new headers seen.
 		s.heightSub.Notify(getHeights(headers...)...)
+		verifYield("flush:notified")
 		// advance head and tail if we don't have gaps.
 		// TODO(@Wondertan): Beware of the performance penalty of this approach, which always makes a at least one
 		// datastore lookup for both Tail and Head.
 		s.advanceHead(ctx)
 		s.recedeTail(ctx)
+		verifYield("flush:advanced")
 		// don't flush and continue if pending batch is not grown enough,
 		// and neither Store is stopping(headers == nil) nor Sync is requested
 		if s.pending.Len() < s.Params.WriteBatchSize && !force {
@@ -486,6 +490,7 @@ func (s *Store[H]) flushLoop(ctx context.Context) {
 		}
 
 		s.metrics.flush(ctx, time.Since(startTime), s.pending.Len(), false)
+		verifYield("flush:committed")
 		// reset pending
 		s.pending.Reset()
 	}
